@@ -2,6 +2,7 @@ import FlVerif.Base.X
 import FlVerif.Spec.Consequent
 import FlVerif.Op.Consequent
 import FlVerif.Lemmas.Consequent
+import FlVerif.Gen.SetterGen
 
 /-! # C07 — each conclusion of a triggered rule contributes exactly its own activation
 
@@ -179,6 +180,11 @@ theorem sanitise_table {α : Type} [Field α] [LinearOrder α] [IsStrictOrderedR
     (∀ x : X α, X.isfinite (X.nanToNum01 x) = true) := by
   refine ⟨rfl, rfl, rfl, fun _ => rfl, fun x => ?_⟩
   cases x <;> rfl
+
+/-- Tie A: the sanitiser of the model is the `Activated.degree` setter as traced from the code -/
+theorem gen_degree_setter {α : Type} [Field α] [LinearOrder α] [IsStrictOrderedRing α] (d : X α) :
+    Gen.Setter.activatedDegree d = X.nanToNum01 d := by
+  unfold Gen.Setter.activatedDegree; exact X.nanToNum_01 d
 
 /-- `if … then o1 is very t and o2 is t`, degree 1/2 -/
 def f3Consequent : List (Concl (X ℚ)) :=
